@@ -45,6 +45,24 @@ type solver struct {
 	errors                 []string
 }
 
+// SolverLogDir, when set, makes every solver process write its transcript there (used by
+// the cross-solver comparison); each transcript stops at SolverLogCap bytes.
+var SolverLogDir string
+var SolverLogCap int64 = 8 << 20
+
+type cappedWriter struct {
+	w    io.Writer
+	left int64
+}
+
+func (c *cappedWriter) Write(p []byte) (int, error) {
+	if c.left <= 0 {
+		return len(p), nil
+	}
+	c.left -= int64(len(p))
+	return c.w.Write(p)
+}
+
 // SolverCommand is the argv of the back end; default z3 -in.
 var SolverCommand = []string{"z3-new", "-in"}
 
@@ -65,7 +83,10 @@ func newSolver(timeoutMs int) (*solver, error) {
 	}
 	s.in = in
 	s.out = bufio.NewReaderSize(out, 1<<16)
-	if p := os.Getenv("GOBMC_SMTLOG"); p != "" {
+	if SolverLogDir != "" {
+		f, _ := os.OpenFile(fmt.Sprintf("%s/w%d.smt2", SolverLogDir, s.cmd.Process.Pid), os.O_CREATE|os.O_WRONLY|os.O_TRUNC, 0644)
+		s.log = &cappedWriter{w: f, left: SolverLogCap}
+	} else if p := os.Getenv("GOBMC_SMTLOG"); p != "" {
 		f, _ := os.OpenFile(fmt.Sprintf("%s.%d", p, s.cmd.Process.Pid), os.O_CREATE|os.O_WRONLY|os.O_TRUNC, 0644)
 		s.log = f
 	}
